@@ -29,7 +29,8 @@ def check(ctx, progs):
     quick = ctx.tier == "quick"
     out = {"module": "SpokRun", "protocol": "wal", "programs": []}
     crashes = pid == "C10"
-    sel = [p for p in progs if p["name"] in ("P1", "P2", "Q1", "Q3")][:2] if quick else progs
+    # the protocol model is checked exhaustively on the programs whose model state space stays in the millions
+    sel = [p for p in progs if p["name"] in ("P1", "P2", "Q1", "Q3")][:2] if quick else [p for p in progs if p["name"] in ("P1", "P2", "P4", "P6", "P8", "Q1", "Q2", "Q3")]
     tot_d = tot_g = 0
     for prog in sel:
         d, pj = pfile(ctx, prog)
